@@ -584,7 +584,7 @@ fn ops(n: usize, scr: &str) {
             continue;
         }
         let np = pool.len().max(1);
-        let interesting = is_sys || purity != Purity::Pure;
+        let interesting = is_sys || purity != Purity::Pure || nargs <= 1;
         let tries = if !interesting {
             (n / 4).max(2)
         } else {
@@ -629,6 +629,7 @@ fn ops(n: usize, scr: &str) {
             canned.extend(m);
             // the safe backend itself
             if is_sys || purity != Purity::Pure {
+                // (only the labelled operations are also run on the safe backend itself)
                 let mut env = Uiua::with_backend(SafeSys::new());
                 for a in args.iter().rev() {
                     env.push(a.clone());
